@@ -300,6 +300,45 @@ let cmd_encode () =
         print_endline (if h = "" then "-" else h)
     | _ -> failwith ("encode: bad line " ^ l))
 
+(* ---------- defs : index maps of a definition set ---------- *)
+let hex_of_string (s : Stdlib.String.t) = let b = Buffer.create 16 in String.iter (fun c -> Buffer.add_string b (Printf.sprintf "%02x" (Char.code c))) s; Buffer.contents b
+let rec type_syntax (t : dtype) : Stdlib.String.t =
+  match t with
+  | TUInt w -> Printf.sprintf "u%d" (int_of_nat w) | TInt w -> Printf.sprintf "i%d" (int_of_nat w)
+  | TF32 -> "f32" | TF64 -> "f64" | TVec n -> Printf.sprintf "vec%d" (int_of_nat n)
+  | TString -> "str" | TBlob -> "blob" | TPython -> "py" | TMailbox -> "mbox"
+  | TArray (e, None) -> "arr(" ^ type_syntax e ^ ")"
+  | TArray (e, Some n) -> Printf.sprintf "arr%d(%s)" (int_of_nat n) (type_syntax e)
+  | TDict (fs, an) -> Printf.sprintf "dict%d{%s}" (if an then 1 else 0)
+      (String.concat ";" (List.map (fun (k, ft) -> hex_of_string (ocaml_string_of k) ^ ":" ^ type_syntax ft) fs))
+  | TUser e -> "user(" ^ type_syntax e ^ ")"
+
+let read_case () =
+  let dialect = next_line () in
+  let alias = read_nodes () in
+  let ifaces = read_named () in
+  let ents = read_named () in
+  (dialect, alias, ifaces, ents)
+
+let cmd_defs () =
+  ic := open_in Sys.argv.(2);
+  let (dialect, alias, ifaces, ents) = read_case () in
+  let g, table = match dialect with
+    | "wows" -> Wows, table_wows | "wows126" -> Wows, table_wows126
+    | "wot" -> Wot, table_wot | "wowp" -> Wowp, table_wowp | _ -> failwith "dialect" in
+  match build_setup g table alias ifaces ents [] [] [] with
+  | Err e -> Printf.printf "SETUP-ERROR %s\n" (err_name e)
+  | Ok st ->
+      List.iteri (fun i name -> Printf.printf "ENT %d %s\n" (i + 1) (ocaml_string_of name)) st.s_names;
+      List.iter (fun (name, m) ->
+        Printf.printf "MODEL %s\n" (ocaml_string_of name);
+        List.iter (fun mt ->
+          Printf.printf "M %s %s %s %s\n" (ocaml_string_of mt.m_name) (string_of_z (method_key mt)) (string_of_z mt.m_hdr)
+            (String.concat " " (List.map (fun (a, t) -> (match a with Some n -> ocaml_string_of n | None -> "-") ^ ":" ^ type_syntax t) mt.m_args))) m.e_methods;
+        let pl tag l = List.iter (fun p -> Printf.printf "%s %s %s %s\n" tag (ocaml_string_of p.p_name) (type_syntax p.p_type) (string_of_n p.p_flags)) l in
+        pl "PC" m.e_client; pl "PI" m.e_internal; pl "PL" m.e_cell; pl "PB" m.e_base;
+        Printf.printf "VOL %s\n" (String.concat "," (List.sort compare (List.map ocaml_string_of m.e_vol)))) st.s_models
+
 (* frames : one hex stream per line -> "<tail> <type>:<timehex>:<payloadhex|-> ..." *)
 let cmd_frames () =
   iter_lines (fun l ->
@@ -312,6 +351,7 @@ let cmd_frames () =
 let () =
   match Sys.argv.(1) with
   | "frames" -> cmd_frames ()
+  | "defs" -> cmd_defs ()
   | "encode" -> cmd_encode ()
   | "bits" -> cmd_bits ()
   | "bitread" -> cmd_bitread ()
